@@ -4,7 +4,10 @@ import (
 	"bytes"
 	"fmt"
 	"math/rand"
+	"sync"
 	"time"
+	"verif/internal/fakecluster"
+	"verif/internal/resp"
 
 	sredis "github.com/samaritan-proxy/samaritan/proc/redis"
 
@@ -197,4 +200,154 @@ func c12(r *ev.Run) {
 	r.DistinctN(ntrans)
 	r.Require("crc_transitions_exercised", 1<<24)
 	r.Require("tag_shapes", 50)
+	c12EndToEnd(r)
+	r.Require("e2e_requests", 2000)
+}
+
+// c12EndToEnd: the same rule observed where it matters - at the nodes. Eight concurrent connections send every keyed request shape
+// (key as first argument, EVAL's key after numkeys, per-key children of multi-key requests, inline commands) with PRNG keys (braces,
+// binary bytes) to the real proxy in front of eight simulated masters whose table is loaded and stable: a node that receives a key of a
+// slot it does not own answers MOVED, so any redirection the nodes log is a request the proxy hashed (or picked the key of) wrongly.
+func c12EndToEnd(r *ev.Run) {
+	s, err := startSUT(r, false, 600000, 20)
+	if err != nil {
+		r.Internal("start sut: %v", err)
+		return
+	}
+	defer s.Close()
+	cl, err := fakecluster.New(8, 0)
+	if err != nil {
+		r.Internal("fakecluster: %v", err)
+		return
+	}
+	defer cl.Close()
+	rnd := rand.New(rand.NewSource(r.Seed + 1212))
+	randomLayout(rnd, cl)
+	cl.LogArgs = false
+	var mu sync.Mutex
+	redirected := map[string]int{}
+	var witness map[string]interface{}
+	cl.OnEvent = func(e *fakecluster.Event) {
+		if e.Outcome == fakecluster.Moved || e.Outcome == fakecluster.Ask {
+			mu.Lock()
+			redirected[e.Cmd]++
+			if witness == nil {
+				witness = map[string]interface{}{"command": e.Cmd, "received_by_node": e.Node, "outcome": e.Outcome}
+			}
+			mu.Unlock()
+		}
+	}
+	svc, err := startRedisSvc(s, cl, cl.Addrs(), RedisOpts{})
+	if err != nil || !svc.WaitRouting(1, 10*time.Second) {
+		r.Internal("service did not start: %v", err)
+		return
+	}
+	defer s.StopProc(svc.Name, 20*time.Second)
+	time.Sleep(100 * time.Millisecond)
+	mu.Lock()
+	for k := range redirected { // (requests of the start-up window, before the table was loaded)
+		delete(redirected, k)
+	}
+	witness = nil
+	mu.Unlock()
+	nreq := 400
+	if r.Tier == "thorough" {
+		nreq = 6000
+	}
+	var wg sync.WaitGroup
+	for c := 0; c < 8; c++ {
+		wg.Add(1)
+		go func(c int) {
+			defer wg.Done()
+			crnd := rand.New(rand.NewSource(r.Seed*77 + int64(c)))
+			conn, err := svc.Dial()
+			if err != nil {
+				return
+			}
+			defer conn.Close()
+			key := func() []byte {
+				l := 1 + crnd.Intn(24)
+				b := make([]byte, l)
+				for i := range b {
+					b[i] = "abcxyz0189{}{}.:\x00\xff\x80 "[crnd.Intn(20)]
+				}
+				return b
+			}
+			for i := 0; i < nreq; i++ {
+				var raw []byte
+				switch crnd.Intn(8) {
+				case 0:
+					raw = resp.Cmd([]byte("GET"), key())
+				case 1:
+					raw = resp.Cmd([]byte("set"), key(), []byte("v"))
+				case 2:
+					raw = resp.Cmd([]byte([]string{"EVAL", "eval", "EvalSha"}[crnd.Intn(3)]), []byte("return 1"), []byte("1"), key(), []byte("arg"))
+				case 3:
+					raw = resp.Cmd([]byte("MGET"), key(), key(), key())
+				case 4:
+					raw = resp.Cmd([]byte("DEL"), key(), key())
+				case 5:
+					raw = resp.Cmd([]byte("exists"), key(), key(), key(), key())
+				case 6:
+					raw = resp.Cmd([]byte("HSET"), key(), []byte("f"), []byte("v"))
+				default:
+					k := key()
+					for j := range k {
+						if k[j] == ' ' || k[j] == 0 {
+							k[j] = '_'
+						}
+					}
+					raw = append(append([]byte("get "), k...), '\r', '\n')
+				}
+				conn.C.Write(raw)
+				if _, err := conn.Read(10 * time.Second); err != nil {
+					return
+				}
+				r.Count("e2e_requests", 1)
+			}
+		}(c)
+	}
+	wg.Wait()
+	// reads routed at the same instant by many sessions (pipelines, no waiting): the choice of a node must not depend on what
+	// another session is routing
+	bursts := 40
+	if r.Tier == "thorough" {
+		bursts = 400
+	}
+	for c := 0; c < 16; c++ {
+		wg.Add(1)
+		go func(c int) {
+			defer wg.Done()
+			crnd := rand.New(rand.NewSource(r.Seed*79 + int64(c)))
+			conn, err := svc.Dial()
+			if err != nil {
+				return
+			}
+			defer conn.Close()
+			for b := 0; b < bursts; b++ {
+				var raw []byte
+				for i := 0; i < 30; i++ {
+					raw = append(raw, resp.CmdS("GET", fmt.Sprintf("k%d.%d", c, crnd.Intn(1<<20)))...)
+				}
+				conn.C.Write(raw)
+				for i := 0; i < 30; i++ {
+					if _, err := conn.Read(10 * time.Second); err != nil {
+						return
+					}
+				}
+				r.Count("e2e_pipelined_reads", 30)
+			}
+		}(c)
+	}
+	wg.Wait()
+	if sutDied(r, s, "C12 end to end") {
+		return
+	}
+	mu.Lock()
+	defer mu.Unlock()
+	if len(redirected) > 0 {
+		witness["redirected_by_command"] = redirected
+		r.Violation("C12:e2e-request-reached-a-node-that-does-not-own-its-slot", "on a stable cluster whose layout the proxy has loaded, nodes answered requests with MOVED: the proxy sent a key to the wrong node", witness)
+	}
+	r.Case("e2e")
 }
